@@ -122,6 +122,21 @@ def generate(rng, tier):
         Hs(["sh.65.0.ac.5", bad, "sh.65.0.ac.5"])
     # boundary positions that are allowed: insert at len
     Hs(["sh.65.1.ac.5", "ii.2." + in_fields(rng, 41), "sh.65.2.ac.5", "io.2." + out_fields(rng, 42), "sh.65.2.ac.5", "sh.67.2.ac.5"])
+    # replacements that differ from the replaced element in exactly ONE field (a "smart" invalidation that compares
+    # old and new element can forget a field): add a known element, fill the cache, replace it, ask again
+    base_in = ("l:77:32", 1, "51", 305419896)
+    variants_in = [("l:77:32", 2, "51", 305419896), ("l:77:32", 1, "51", 305419897), ("l:77:32", 1, "0151", 305419896),
+                   ("l:78:32", 1, "51", 305419896), ("l:77:32", 1, "51", 305419896)]
+    fmt_in = lambda f: "%s.%d.%s.%d" % f
+    for fl in (65, 66, 67, 193, 194, 195, 1, 3):
+        for v in variants_in:
+            Hs(["ai." + fmt_in(base_in), "sh.%d.2.76a9.1000" % fl, "si.2." + fmt_in(v), "sh.%d.2.76a9.1000" % fl, "sh.65.0.76a9.1000"])
+    base_out = (5000, "76a914+l:9:20+88ac")
+    variants_out = [(5001, "76a914+l:9:20+88ac"), (5000, "76a914+l:8:20+88ac"), (5000, "76a914+l:9:20+88ac")]
+    for fl in (65, 67, 193, 195, 1, 3):
+        for v in variants_out:
+            Hs(["ao.%d.%s" % base_out, "sh.%d.1.76a9.1000" % fl, "so.2.%d.%s" % v, "sh.%d.1.76a9.1000" % fl, "sh.65.0.76a9.1000"])
+            Hs(["sh.%d.1.76a9.1000" % fl, "io.2.%d.%s" % v, "sh.%d.1.76a9.1000" % fl, "io.0.%d.%s" % v, "sh.%d.1.76a9.1000" % fl])
     # empty transaction built up from nothing
     empty = (2).to_bytes(4, "little") + b"\x00\x00" + (0).to_bytes(4, "little")
     Hs(["sh.65.0.ac.5", "ai." + in_fields(rng, 51), "sh.65.0.ac.5", "sh.67.0.ac.5", "ao." + out_fields(rng, 52), "sh.67.0.ac.5", "sh.65.0.ac.5", "sh.3.0.ac.5"], empty.hex())
